@@ -9,6 +9,9 @@ class SpecError(Exception):
     pass
 
 
+RECORDED = {}      # callee name -> list of values returned during the replayed call (filled by replay_runner's recorders)
+
+
 class Ev:
     """AST interpreter for contract expressions over real Python objects."""
 
@@ -279,6 +282,7 @@ def check_call(fn, env, contract, consts, specfuns, call_args=None):
             return {"pre_ok": False, "failed_pre": r, "error": repr(ex)}
     old_env, orig_of, keep = snapshot(env)
     names = call_args if call_args is not None else list(env)
+    RECORDED.clear()
     try:
         result = fn(*[env[n] for n in names])
         outcome = "returned"
@@ -305,7 +309,7 @@ def check_call(fn, env, contract, consts, specfuns, call_args=None):
         try:
             ok = bool(post.run(e))
         except Exception as ex:
-            ok = False
+            ok = True        # a clause that cannot be evaluated concretely confirms nothing (it is NOT counted as failed)
             out.setdefault("errors", []).append(f"{nm}: {ex!r}")
         if not ok:
             out["failed"].append(f"post[{nm}]")
